@@ -409,6 +409,7 @@ def _job_conc(arg):
         e.setdefault("phase", "concurrent")
         if e["e"] == "Store":
             e.setdefault("troublesome", False)
+            e.setdefault("nlog", R.LOG_LEN.get(e.get("m"), 0))
         head.append(e)
     crashed = crash["m"] if crash["op"] == "Store" else None
     fu = [o for o in fu if o.get("m") != crashed]
@@ -537,6 +538,7 @@ def _job_pair(arg):
         e["phase"] = "pre"
         if e["e"] == "Store":
             e.setdefault("troublesome", False)
+            e.setdefault("nlog", R.LOG_LEN.get(e.get("m"), 0))
         head.append(e)
     last = blocks[-1][1]
     race = "constructors" if last in OPEN_STEPS else "store_key" if last == "Symlink" else last
@@ -612,6 +614,7 @@ def _trace_events(ops, crash, pre, obs):
     for e in evs:
         if e["e"] == "Store":
             e.setdefault("troublesome", False)
+            e.setdefault("nlog", R.LOG_LEN.get(e.get("m"), 0))
     return evs
 
 
@@ -684,9 +687,7 @@ def _outcome(ev, bad):
         if isinstance(exp, dict):
             cands = [dict(exp)]
         elif isinstance(exp, list):
-            for x in exp:  # candidates <<model, descr>>
-                m = x[0]
-                cands.append({"model": R.PARAM_OF.get(m), "data": R.DATA_OF.get(m), "hash": m, "res": m, "name": ev.get("n"), "desc": x[1]})
+            cands = [dict(x) for x in exp if isinstance(x, dict)]  # expected entries of the candidate bindings
         best = None
         for cand in cands:
             diff = sorted(k for k, val in cand.items() if c.get(k) != val)
@@ -703,6 +704,8 @@ def _outcome(ev, bad):
             return "mismatch:hash"
         if "res" in best:
             return "mismatch:results"
+        if "rlog" in best:
+            return "mismatch:results_log"         # the log inside the stored results: not in order / not verbatim
         return "mismatch:" + ",".join(best)   # name / desc
     if e == "ResolveName":
         return "mismatch:key"
@@ -728,7 +731,7 @@ def _report(traces, bads_per_trace, v: core.Verdict, counts):
             crashed = case.get("crash", {}).get("m")
             target = ev.get("m")
             if target is None and ev["e"] in ("ResolveName", "RetrieveName", "ReadAnn") and isinstance(bad.get("exp"), list):
-                ms = sorted({x[0] for x in bad["exp"]})
+                ms = sorted({x["hash"] if isinstance(x, dict) else x[0] for x in bad["exp"]})
                 target = ms[-1] if ms else None
             nm = ev.get("n")
             all_ops = list(case.get("workload", [])) + list(case.get("schedule", {}).get("held", []) or [])
